@@ -23,8 +23,9 @@ func KeyPath(store string, key []byte) string {
 }
 
 // JudgeStoreQuery decides one "/<store>/key" query result against what was committed.
-//   committed(h) returns (value, present, storeKnown) of that key at height h; hashOf(h) the app hash of h (nil if unknown).
-//   class is "retained", "pruned" or "future" for the requested height.
+//
+//	committed(h) returns (value, present, storeKnown) of that key at height h; hashOf(h) the app hash of h (nil if unknown).
+//	class is "retained", "pruned" or "future" for the requested height.
 func JudgeStoreQuery(rep Reporter, prop, store string, key []byte, reqHeight int64, prove bool, class string,
 	want []byte, present bool, res abci.ResponseQuery, rootAt func(h int64) []byte, otherHeights []int64, ctx string, storeKeys []string) {
 	rt := rootmulti.DefaultProofRuntime()
